@@ -12,6 +12,7 @@ UNITS = {
     "dispatch": [("async",)],
     "handle_async": [("async",)],
     "handle": [()],
+    "builder": [()],
     "timestamps": [()],
     "dnow": [()],
     "naming": [()],
@@ -24,15 +25,15 @@ PROP_UNITS = {
     "C02": [("spec", TF), ("logger", TF), ("handle_c", TF), ("handle_d", TF)],
     "C04": [("state", ()), ("handle", ()), ("flw", ())],
     "C05": [("handle_a", TF), ("handle_b", TF), ("handle_b2", TF), ("handle_c", TF), ("spec", TF)],
-    "C06": [("state", ()), ("timestamps", ())],
+    "C06": [("state", ()), ("timestamps", ()), ("builder", ())],
     "C07": [("state", ()), ("listing", ())],
     "C08": [("state", ())],
     "C09": [("state", ()), ("timestamps", ())],
     "C13": [("logger", TF), ("flw", ()), ("multi", ())],
     "C14": [("state", ()), ("listing", ()), ("naming", ()), ("timestamps", ())],
     "C15": [("state", ()), ("handle", ()), ("flw", ()), ("dispatch", ("async",)), ("handle_async", ("async",))],
-    "C16": [("naming", ()), ("listing", ()), ("state", ())],
-    "C18": [("state", ()), ("handle", ())],
+    "C16": [("naming", ()), ("listing", ()), ("state", ()), ("builder", ())],
+    "C18": [("state", ()), ("handle", ()), ("builder", ())],
     "C19": [("state", ()), ("logger", TF), ("multi", ()), ("timestamps", ())],
 }
 
